@@ -140,6 +140,8 @@ impl LineLog {
         if let Some(w) = g.as_mut() {
             let _ = w.write_all(line.as_bytes());
             let _ = w.write_all(b"\n");
+            // write through: an abort (stack overflow, SIGSEGV) must not lose the tail of the trace
+            let _ = w.flush();
         }
         self.count.fetch_add(1, Ordering::Relaxed);
     }
